@@ -7,6 +7,7 @@ package main
 import (
 	"flag"
 	"fmt"
+	"io/fs"
 	"os"
 	"path/filepath"
 	"strconv"
@@ -387,7 +388,15 @@ func variant(c fsx.Call) string {
 
 		return "pos"
 	case "Chmod", "Mkdir", "MkdirAll":
+		if c.Mode != 0 { // type bits in the mode argument, in the letters of fs.FileMode.String
+			return fmt.Sprintf("%s|%#o", strings.TrimRight(fs.FileMode(c.Mode).String(), "-"), c.Perm)
+		}
+
 		return fmt.Sprintf("%#o", c.Perm)
+	case "WriteFile":
+		if c.Mode != 0 {
+			return fmt.Sprintf("%s|%#o", strings.TrimRight(fs.FileMode(c.Mode).String(), "-"), c.Perm)
+		}
 	case "Chown", "Lchown":
 		return fmt.Sprintf("%d:%d", c.N, c.M)
 	}
@@ -612,7 +621,23 @@ func buildOps(fsName, R, tier string) []fsx.Call {
 			fsx.Call{Op: "Truncate", A: p, N: -1},
 			fsx.Call{Op: "Chmod", A: p, Perm: 0o600},
 			fsx.Call{Op: "Chmod", A: p, Perm: 0o1777},
+			// a mode argument is ANY fs.FileMode, e.g. one copied from Stat of
+			// another node: os.Chmod, os.Mkdir and os.WriteFile use its permission
+			// and special bits only. Each call gets a type bit foreign to the node
+			// it acts on or makes (same permission bits as the plain call, so the
+			// kernel reaches no further state).
+			fsx.Call{Op: "Chmod", A: p, Perm: 0o600, Mode: uint32(fs.ModeDir)},
+			fsx.Call{Op: "Mkdir", A: p, Perm: 0o755, Mode: uint32(fs.ModeSymlink)},
+			fsx.Call{Op: "WriteFile", A: p, Data: "hello", Perm: 0o644, Mode: uint32(fs.ModeDir)},
 		)
+
+		if tier == "thorough" {
+			ops = append(ops,
+				fsx.Call{Op: "Chmod", A: p, Perm: 0o600, Mode: uint32(fs.ModeSymlink)},
+				fsx.Call{Op: "Chmod", A: p, Perm: 0o600, Mode: uint32(fs.ModeType | fs.ModeAppend | fs.ModeExclusive | fs.ModeTemporary)},
+				fsx.Call{Op: "MkdirAll", A: p, Perm: 0o750, Mode: uint32(fs.ModeNamedPipe)},
+			)
+		}
 
 		if fsName == "MemFS" {
 			ops = append(ops, fsx.Call{Op: "Chown", A: p, N: 1001, M: 1002})
@@ -803,7 +828,7 @@ func main() {
 		Coverage: map[string]any{
 			"states": states, "transitions": trans, "traces_validated_against_impl": trans,
 			"evaluations": trans, "distinct_nontrivial": len(outcomes),
-			"rule":       "every history of length <= bound over the call alphabet executed on a fresh emulated file system and, in lock-step, through OsFS on a fresh tmpfs directory at the same absolute path; distinct_nontrivial = distinct (call, kernel outcome) classes observed",
+			"rule":       "every history of length <= bound over the call alphabet executed on a fresh emulated file system and, in lock-step, through OsFS on a fresh tmpfs directory at the same absolute path; Chmod, Mkdir and WriteFile (thorough: MkdirAll too) also with a mode argument that carries file type bits, which package os ignores; distinct_nontrivial = distinct (call, kernel outcome) classes observed",
 			"samples":    samples,
 			"exhaustive": exh, "bound": fmt.Sprintf("histories of length <= %d (completed %d)", d, depthDone),
 			"systems": all, "known_findings_matched": rep.KnownMatched(),
